@@ -402,15 +402,28 @@ def erased_lifetime(prog, ex, P, tier):
     weak = pick(ex, [False, True], "weak")
     s = Sim(prog, ex)
     s.spawn_actor(Script("A"), 2)
-    ops = [("tell", "A", 1), ("into_boxed", "A", tr_name)]
+    ops = [("downgrade", "A"), ("weak_routes", "A"), ("tell", "A", 1), ("into_boxed", "A", tr_name)]
     if weak:
         ops.append(("boxed_downgrade", "A", tr_name))
     if tr_name == "TellHandler" and not weak:
         ops += [("yield",), ("boxed_tell", "A", 2)]
-    s.client("c1", ops, ["A"], keep_refs=True)
+    ops += [("yield",), ("weak_routes", "A")]
+    c1 = s.client("c1", ops, ["A"], keep_refs=True)
+    # a second holder keeps a strong reference past the actor's end and compares the routes again
+    ender = pick(ex, ["none", "stop", "kill"], "ender")
+    if ender != "none":
+        s.client("c2", [("downgrade", "A"), (ender, "A"), ("yield",), ("weak_routes", "A"), ("yield",), ("weak_routes", "A")], ["A"], keep_refs=True)
     s.drop_main("A")
-    s.run(60)
+    s.run(80)
     t = finish(ex, s)
+    for cl in s.clients.values():
+        for op, res in zip(cl.ops, cl.results):
+            if op[0] == "weak_routes" and isinstance(res, Agg):
+                ex.check("C16", len(set(res.fields)) == 1, "upgrade() through [ActorWeak, WeakTellHandler, WeakAskHandler, WeakActorControl] gives %s" % res.fields)
+    if ender != "none":
+        ex.sim = s
+        ex.steps = s.it.steps
+        return
     M.mon_c07(t, "A", expect_alive=not weak)
     M.mon_c01(t)
     if tr_name == "TellHandler" and not weak:
@@ -737,7 +750,8 @@ def deadlock_sound(prog, ex, P, tier):
     """acyclic-in-time ask patterns over a cyclic topology, asks ending by reply / timeout /
     callee death / cancellation: no deadlock panic, empty graph afterwards; non-actor callers
     are never tracked"""
-    shape = pick(ex, ["a-asks-b-then-b-asks-a", "ask-times-out-then-reverse", "callee-dies-then-reverse", "fan-out", "non-actor-callers"], "shape")
+    shape = pick(ex, ["a-asks-b-then-b-asks-a", "ask-times-out-then-reverse", "callee-dies-then-reverse", "fan-out", "non-actor-callers",
+                      "caller-panics-mid-ask-then-reverse"], "shape")
     s = Sim(prog, ex)
     w = s.w
     A, B = Script("A"), Script("B")
@@ -756,6 +770,12 @@ def deadlock_sound(prog, ex, P, tier):
         ops = [("ask", "A", 1), ("ask", "A", 2)]
     elif shape == "fan-out":
         A.handler_actions = {1: [("ask", "B", 11), ("ask", "B", 13)]}
+        ops = [("ask", "A", 1), ("ask", "B", 5)]
+    elif shape == "caller-panics-mid-ask-then-reverse":
+        # A panics in its handler while its ask to B is still in flight; later B asks the dead A
+        A.handler_actions = {1: [("ask_then_panic", "B", 11)]}
+        B.handler_yields = {11: 1}
+        B.handler_actions = {5: [("ask", "A", 12)]}
         ops = [("ask", "A", 1), ("ask", "B", 5)]
     else:
         ops = [("ask", "A", 1), ("ask", "B", 5)]
@@ -830,3 +850,27 @@ def has_path_fn(prog, ex, P, tier):
     ex.event(ev="has_path", result=str(res), N=N)
     ex.steps = it.steps
     ex.sim = s
+
+
+def burst(prog, ex, P, tier):
+    """a long back-to-back burst (thresholds such as batch limits only show beyond a handful of
+    messages): one sender, 12 (thorough 20) tells into a mailbox large enough to hold them all,
+    periodic or one-shot on_run, optionally a kill / stop in the middle"""
+    n = 12 if tier == "quick" else 20
+    mode = pick(ex, ["periodic-on_run", "default-on_run", "periodic+kill", "default+stop"], "mode")
+    sc = Script("A")
+    s = Sim(prog, ex)
+    if mode.startswith("periodic"):
+        sc.on_run_default = ("true", "tick")
+        ticks = [2]
+        s.extra_actions.append((lambda: ticks[0] > 0, lambda: (ticks.__setitem__(0, ticks[0] - 1), s.w.advance(1)), "clock-advance"))
+    s.spawn_actor(sc, n + 2)
+    s.client("c1", [("tell", "A", i + 1) for i in range(n)] + [("ask", "A", 100)], ["A"])
+    if mode.endswith("+kill"):
+        s.client("ck", [("kill", "A")], ["A"])
+    if mode.endswith("+stop"):
+        s.client("cs", [("stop", "A")], ["A"])
+    s.drop_main("A")
+    s.run(120)
+    tr = finish(ex, s)
+    apply(tr, P, cap=n + 2)
